@@ -31,7 +31,7 @@ LEVEL_NOTE = (
 )
 TECHNIQUE = "property-based testing over generated programs (Hypothesis) against a reference interpreter; flag-variant differential for the shipped algorithms + coverage-guided fuzzing stage (atheris/libFuzzer driving the same strategy and oracle)"
 BUDGET = {"quick": 4000, "thorough": 100000}
-FUZZ = {"quick": 3200, "thorough": 120000}  # executions of the coverage-guided stage (vlib/fuzz.py)
+FUZZ = {"quick": 3200, "thorough": 32000}  # executions of the coverage-guided stage (vlib/fuzz.py)
 SHRINK_SECONDS = {"quick": 30, "thorough": 150}
 RULE = (
     "case = (program, block grid, block sizes, number of infinite dimensions, input value salt, scope functions and "
